@@ -78,6 +78,15 @@ func (P *Prog) buildRecDef(sf *SpecFunc) string {
 	var binders, sorts, args []string
 	for _, p := range sf.Params {
 		nm := "v_" + p.Name
+		if strings.HasPrefix(p.Type, "row:") {
+			et := x.resolveType(sf.Pkg, p.Type[4:])
+			srt := "(Array Int " + P.ss.sortOf(et) + ")"
+			env.vars[p.Name] = Val{K: KArr, T: nm, Typ: et}
+			binders = append(binders, "("+nm+" "+srt+")")
+			sorts = append(sorts, srt)
+			args = append(args, nm)
+			continue
+		}
 		if p.Type == "bytes" || p.Type == "floats" {
 			env.vars[p.Name] = Val{K: KArr, T: nm}
 			binders = append(binders, "("+nm+" (Array Int Int))")
